@@ -109,8 +109,12 @@ impl Peer {
 fn show_reply(r: &Option<(Vec<u8>, SocketAddr)>, listener: SocketAddr, root: &Path) -> String {
     match r {
         None => "none".into(),
+        Some((b, from)) if b.len() >= 4 && b[0] == 0 && b[1] == 5 => {
+            // of an ERROR only opcode and code are compared: the wording of the message is no property's subject
+            format!("{}~@{}", hex(&b[..4]), if *from == listener { "L" } else { "E" })
+        }
         Some((b, from)) => {
-            // error messages quote absolute paths: replace the sandbox root by a fixed token
+            // (other replies may quote absolute paths: replace the sandbox root by a fixed token)
             let rootb = root.to_str().unwrap().as_bytes();
             let mut v: Vec<u8> = vec![];
             let mut i = 0;
@@ -189,7 +193,7 @@ fn download(peer: &Peer, first: &(Vec<u8>, SocketAddr), listener: SocketAddr, si
         }
         if dg.len() < 4 || dg[1] != 3 {
             if dg.len() >= 2 && dg[1] == 5 {
-                return format!("dl=error:{}", hex(&dg));
+                return format!("dl=error:{}", hex(&dg[..4.min(dg.len())]));
             }
             strays += 1;
             continue;
@@ -263,7 +267,7 @@ fn upload(peer: &Peer, first: &(Vec<u8>, SocketAddr), listener: SocketAddr, sing
                         break;
                     }
                 } else if dg.len() >= 2 && dg[1] == 5 {
-                    return format!("ul=error:{}", hex(&dg));
+                    return format!("ul=error:{}", hex(&dg[..4.min(dg.len())]));
                 }
             }
         }
